@@ -82,6 +82,21 @@ def back_edges(f):
     return out
 
 
+def natural_loops(f):
+    """header -> set of blocks of the natural loop(s) with that header (header included)."""
+    out = {}
+    for t, h in back_edges(f):
+        body = out.setdefault(h, {h})
+        stack = [t]
+        while stack:
+            b = stack.pop()
+            if b in body:
+                continue
+            body.add(b)
+            stack.extend(p for p in f.blocks[b].preds)
+    return out
+
+
 def forward(f, init, transfer, join, bottom=None, edge_transfer=None):
     """Generic forward dataflow.  transfer(block, state) -> state;
     edge_transfer(block, succ_index, state) -> state or None (edge infeasible);
